@@ -151,6 +151,15 @@ theorem cq_content {k kc c cc : Nat} (p : Params k kc c cc) (flags : Nat) (ops :
     rw [h.posted_eq, hc]
     simp [hs]
 
+/-- `needs_wakeup` answers exactly whether the kernel set IORING_SQ_NEED_WAKEUP, whatever the other bits of the SQ
+flags word (CQ overflow, task-run) are: with it an application following the wake-up protocol of an SQPOLL ring
+wakes the idle kernel thread, so that what it flushed is consumed at all -/
+theorem needs_wakeup_iff (other : Nat) (b : Bool) :
+    needsWakeup (2 * other + (if b then 1 else 0)) = b := by
+  cases b <;> simp [needsWakeup, Nat.add_mod, Nat.mul_mod]
+
+example : needsWakeup 3 = true ∧ needsWakeup 2 = false ∧ needsWakeup 1 = true := by decide
+
 /-- No call of the three methods panics, from any state, in any interleaving (so debug and release
 builds behave alike). -/
 theorem no_panic (s : St) (ops : List Op) : Out.panic ∉ (run .fixed s ops).2 := by
